@@ -34,24 +34,30 @@ type server struct {
 	sessions  []string
 	inflight  int
 	maxFlight int
-	responses []int // response body size per request index (beyond: 0)
+	responses []int // response body size per request index (beyond: steady)
+	steady    int
+	closedReq int    // number of requests seen when Close returned (-1: not yet)
 	sent      []byte // concatenation of response bodies handed out
 	afterStop int    // requests that started after stop was set
 	stop      bool
 	conns     []net.Conn
 	badReq    string
+	reqPipe   []int // index of the accepted pipe each request arrived on
 }
 
 func (s *server) dial(network, addr string) (net.Conn, error) {
 	a, b := net.Pipe()
 	s.mu.Lock()
 	s.conns = append(s.conns, b)
+	pi := len(s.conns) - 1
 	s.mu.Unlock()
-	go s.serve(b)
+	go s.servePipe(b, pi)
 	return a, nil
 }
 
-func (s *server) serve(conn net.Conn) {
+func (s *server) serve(conn net.Conn) { s.servePipe(conn, 0) }
+
+func (s *server) servePipe(conn net.Conn, pipe int) {
 	defer conn.Close()
 	br := bufio.NewReader(conn)
 	for {
@@ -73,12 +79,18 @@ func (s *server) serve(conn net.Conn) {
 		idx := len(s.bodies)
 		s.bodies = append(s.bodies, body)
 		s.sessions = append(s.sessions, req.Header.Get("X-Session-Id"))
+		s.reqPipe = append(s.reqPipe, pipe)
 		if req.Method != http.MethodPost {
 			s.badReq = "method " + req.Method
 		}
-		n := 0
+		n := s.steady
 		if idx < len(s.responses) {
 			n = s.responses[idx]
+		}
+		if s.stop || (s.closedReq >= 0 && idx >= s.closedReq+10) {
+			// horizon of the steady download: ten requests after Close returned
+			// the server stops feeding it, so that the execution ends
+			n = 0
 		}
 		resp := o4h.Pattern('R', len(s.sent), n)
 		s.sent = append(s.sent, resp...)
@@ -111,9 +123,17 @@ type scen struct {
 	responses []int
 	early     bool // Close becomes possible after the first request / at any write boundary
 	rbuf      int
+	// steady > 0: every request beyond the response script is answered with
+	// this many bytes (a download that never pauses); Close becomes possible
+	// after closeAfter requests
+	steady     int
+	closeAfter int
 }
 
 func (x scen) name() string {
+	if x.steady > 0 {
+		return fmt.Sprintf("w=%v/r=%v+steady-%d/close-after-%d/rbuf=%d", x.writes, x.responses, x.steady, x.closeAfter, x.rbuf)
+	}
 	return fmt.Sprintf("w=%v/r=%v/early-close=%v/rbuf=%d", x.writes, x.responses, x.early, x.rbuf)
 }
 
@@ -129,7 +149,7 @@ func total(xs []int) int {
 
 func run(c *mc.Ctx, x scen, seed int64) {
 	rnd.Install(rnd.New(seed, "c16"))
-	srv := &server{responses: x.responses}
+	srv := &server{responses: x.responses, steady: x.steady, closedReq: -1}
 	defer srv.closeAll()
 	args := pt.Args{}
 	args.Add("url", "http://meek.example/")
@@ -140,11 +160,11 @@ func run(c *mc.Ctx, x scen, seed int64) {
 		return
 	}
 	var conn net.Conn
-	var wrote []byte     // bytes whose Write returned successfully
-	var wErr error       // first Write error
-	var got []byte       // bytes returned by Read
-	var rErr error       // Read error that ended the reader
-	closed := false      // Close() returned
+	var wrote []byte // bytes whose Write returned successfully
+	var wErr error   // first Write error
+	var got []byte   // bytes returned by Read
+	var rErr error   // Read error that ended the reader
+	closed := false  // Close() returned
 	closeEnabled := false
 	writerDone := false
 	var postWriteErr error
@@ -154,7 +174,14 @@ func run(c *mc.Ctx, x scen, seed int64) {
 	reqAtClose, reqAfterHour := -1, -1
 	want := o4h.Pattern('W', 0, total(x.writes))
 	wantResp := total(x.responses)
-	res := sched.Run(c, sched.Options{SelectFree: false, MaxSteps: 400_000,
+	maxSteps := 400_000
+	if x.steady > 0 {
+		// executions of the steady-download scenarios take a few hundred steps;
+		// a worker that never notices Close would otherwise copy 64 KiB bodies
+		// for minutes before the budget ends the execution
+		maxSteps = 20_000
+	}
+	res := sched.Run(c, sched.Options{SelectFree: false, MaxSteps: maxSteps,
 		PreemptKinds: []string{"send", "recv", "select", "close", "yield", "closer", "once"},
 		OnQuiescent: func(s *sched.Sched) bool {
 			// everything is parked and no timer is armed: the worker has stopped.
@@ -214,6 +241,9 @@ func run(c *mc.Ctx, x scen, seed int64) {
 				if nreq >= horizon {
 					return true
 				}
+				if x.steady > 0 {
+					return nreq >= x.closeAfter
+				}
 				if x.early && (closeEnabled || nreq >= 1) {
 					return true
 				}
@@ -222,6 +252,9 @@ func run(c *mc.Ctx, x scen, seed int64) {
 			})
 			conn.Close()
 			closed = true
+			srv.mu.Lock()
+			srv.closedReq = len(srv.bodies) + srv.inflight
+			srv.mu.Unlock()
 			// after Close returned every Write must fail
 			_, postWriteErr = conn.Write([]byte{0x55})
 			postWriteDone = true
@@ -311,10 +344,94 @@ func run(c *mc.Ctx, x scen, seed int64) {
 		fail(c, "close", "close/polling-continues", "%d request(s) were made after the connection had been closed and gone quiet (an hour later)", reqAfterHour-reqAtClose)
 	}
 	_ = afterStop
+	if x.steady > 0 && srv.closedReq >= 0 && len(bodies)-srv.closedReq > 6 {
+		fail(c, "close", "close/polling-continues/steady-download", "%d requests were made after Close had returned, in the middle of a download that never pauses (at most the request in flight and one per scheduling deviation are legitimate)", len(bodies)-srv.closedReq)
+	}
 	if !writerDone {
 		fail(c, "close", "close/writer-blocked", "the writer never returned from Write; blocked: %+v", res.Blocked)
 	}
 	c.Count("requests", int64(len(bodies)))
+}
+
+// twoDials: two connections made from ONE parsed argument set (what the
+// SOCKS front end does for every connection to the same bridge): each
+// connection keeps its own session identifier on all of its requests.
+func twoDials(c *mc.Ctx, seed int64) {
+	rnd.Install(rnd.New(seed, "c16-two"))
+	srv := &server{closedReq: -1}
+	defer srv.closeAll()
+	args := pt.Args{}
+	args.Add("url", "http://meek.example/")
+	cf, _ := (&meeklite.Transport{}).ClientFactory("")
+	pa, err := cf.ParseArgs(&args)
+	if err != nil {
+		fail(c, "setup", "setup", "ParseArgs: %v", err)
+		return
+	}
+	// each meek connection dials through its own function so that requests can
+	// be attributed to the connection independently of the header
+	var owner []int // accepted pipe index -> connection
+	dialFor := func(conn int) func(string, string) (net.Conn, error) {
+		return func(n, a string) (net.Conn, error) {
+			srv.mu.Lock()
+			owner = append(owner, conn)
+			srv.mu.Unlock()
+			return srv.dial(n, a)
+		}
+	}
+	var errs []string
+	res := sched.Run(c, sched.Options{NoPreempt: true, MaxSteps: 200_000}, func() {
+		s := sched.Cur()
+		waitReqs := func(n int) {
+			s.Point("wait-requests", func() bool { k, _, _ := srv.snapshot(); return k >= n })
+		}
+		a, err := cf.Dial("tcp", "", dialFor(0), pa)
+		if err != nil {
+			errs = append(errs, err.Error())
+			return
+		}
+		a.Write([]byte("a1"))
+		waitReqs(1)
+		b, err := cf.Dial("tcp", "", dialFor(1), pa)
+		if err != nil {
+			errs = append(errs, err.Error())
+			return
+		}
+		b.Write([]byte("b1"))
+		k, _, _ := srv.snapshot()
+		waitReqs(k + 1)
+		a.Write([]byte("a2"))
+		k, _, _ = srv.snapshot()
+		waitReqs(k + 1)
+		b.Write([]byte("b2"))
+		k, _, _ = srv.snapshot()
+		waitReqs(k + 1)
+		a.Close()
+		b.Close()
+	})
+	if len(res.Panics) > 0 {
+		fail(c, "no-panic", "panic/two-dials", "%s", res.Panics[0])
+		return
+	}
+	if len(errs) > 0 {
+		fail(c, "setup", "two-dials/dial", "%v", errs)
+		return
+	}
+	srv.mu.Lock()
+	defer srv.mu.Unlock()
+	ids := map[int]string{}
+	for i, sid := range srv.sessions {
+		conn := owner[srv.reqPipe[i]]
+		if prev, ok := ids[conn]; ok && prev != sid {
+			fail(c, "session-id", "session-id/two-dials", "request %d of connection %d carries session id %q, its earlier requests carried %q (another connection made from the same arguments was dialled in between)", i, conn, sid, prev)
+			return
+		}
+		ids[conn] = sid
+	}
+	if len(ids) == 2 && ids[0] == ids[1] {
+		fail(c, "session-id", "session-id/two-dials-same", "two connections use the same session id %q", ids[0])
+	}
+	c.Observe("requests", fmt.Sprint(len(srv.sessions), len(ids)))
 }
 
 func maxWrite(xs []int) int {
@@ -348,6 +465,15 @@ func main() {
 			b = 3
 			writes = append(writes, []int{65536, 65536}, []int{1, 1, 1}, []int{70000, 100})
 		}
+		emit(mc.Scenario{Name: "two-dials/shared-args", Weight: 10, Run: func(c *mc.Ctx) { twoDials(c, cfg.Seed) }})
+		// a download that never pauses, closed in the middle of it
+		for _, ca := range []int{1, 3, 5} {
+			for _, st := range []int{500, 65536} { // (a meek server never answers with more than 65536 bytes)
+				x := scen{writes: []int{1}, responses: []int{10}, early: true, rbuf: 4096, steady: st, closeAfter: ca}
+				emit(mc.Scenario{Name: x.name(), Params: map[string]any{"steady": st, "close_after": ca}, Bound: b, Weight: 30,
+					Run: func(c *mc.Ctx) { run(c, x, cfg.Seed) }})
+			}
+		}
 		for _, w := range writes {
 			for _, r := range resps {
 				for _, early := range []bool{false, true} {
@@ -356,7 +482,7 @@ func main() {
 						rbufs = []int{1000, 2000}
 					}
 					for _, rb := range rbufs {
-						x := scen{w, r, early, rb}
+						x := scen{writes: w, responses: r, early: early, rbuf: rb}
 						bb := b
 						if !cfg.Thorough() && total(w) > 100000 {
 							bb = 1
